@@ -99,7 +99,7 @@ def reference_window(win, psll, L):
 
 # ------------------------------------------------------------------ records
 
-RECIPES = ["noise", "noise", "sine+noise", "trend+noise", "offset+noise", "multisine", "impulses", "const", "zeros", "randwalk", "line+floor", "steepred", "neg_copy", "identical"]
+RECIPES = ["noise", "noise", "sine+noise", "trend+noise", "offset+noise", "multisine", "impulses", "const", "zeros", "randwalk", "line+floor", "steepred", "neg_copy", "identical", "gapped"]
 
 
 def gen_data_spec(rw, N, channels, recipes=None):
@@ -108,7 +108,7 @@ def gen_data_spec(rw, N, channels, recipes=None):
         "channels": int(channels),
         "recipe": rw.choice(recipes or RECIPES),
         "rng": rw.randrange(0, 2 ** 31),
-        "scale": rw.choice([1.0, 1.0, 1e-3, 1e3, 1e6, 0.37]),
+        "scale": rw.choice([1.0, 1.0, 1e-3, 1e3, 1e6, 0.37, 1e-9]),
         "offset": rw.choice([0.0, 0.0, 1.0, -5.0, 1e3]),
         "coupling": rw.choice([0.0, 0.5, 1.0, -2.0]),
     }
@@ -159,6 +159,12 @@ def make_record(spec):
             if spec.get("line_f") is not None:
                 f = spec["line_f"]
             return np.sin(2 * np.pi * f * t + g.uniform(0, 6)) + 1e-8 * g.normal(size=N)
+        if rec == "gapped":          # exact-zero stretches (zero-filled data gaps), longer than many segments
+            v = g.normal(size=N)
+            for _ in range(int(g.integers(1, 4))):
+                a = int(g.integers(0, max(1, N - 1)))
+                v[a:a + int(g.integers(max(2, N // 10), max(3, N // 3)))] = 0.0
+            return v
         if rec == "steepred":        # PSD ~ 1/f^4: doubly integrated noise
             return np.cumsum(np.cumsum(g.normal(size=N)))
         raise ValueError(rec)
